@@ -453,6 +453,8 @@ theorem toIntegerAt_spec (t : IntTy) (h8 : 8 ≤ t.bits) (b : Nat) (hb : 2 ≤ b
     (pre s1 : List Nat) (hbytes : ∀ c ∈ s1, c < 256) :
     toIntegerAt t (pre ++ s1) b pre.length = .ok (TIRes.ofSpec (Spec.signOutcome t b pre.length s1)) := by
   unfold toIntegerAt
+  have hb0 : ((b : Int) == 0) = false := by
+    rw [Bool.eq_false_iff, Ne, beq_iff_eq]; omega
   cases s1 with
   | nil => simp [Spec.signOutcome, Spec.digitsOutcome, TIRes.ofSpec]
   | cons c0 r1 =>
@@ -471,7 +473,7 @@ theorem toIntegerAt_spec (t : IntTy) (h8 : 8 ≤ t.bits) (b : Nat) (hb : 2 ≤ b
       | nil => simp [Spec.digitsOutcome, TIRes.ofSpec]
       | cons c1 r2 =>
         have hne2 : (pre.length + 1 == (pre ++ c0 :: c1 :: r2).length) = false := by simp
-        simp only [hne2, Bool.false_eq_true, if_false]
+        simp only [hne2, hb0, Bool.false_eq_true, if_false]
         have e1 : pre ++ c0 :: c1 :: r2 = (pre ++ [c0]) ++ c1 :: r2 := by simp
         have e2 : pre.length + 1 = (pre ++ [c0]).length := by simp
         rw [e1, e2]
@@ -482,7 +484,7 @@ theorem toIntegerAt_spec (t : IntTy) (h8 : 8 ≤ t.bits) (b : Nat) (hb : 2 ≤ b
         have hn : ¬(t.signed = true ∧ c0 = 45) := by simpa using hneg
         simp [Spec.signOutcome, hneg, hn]
       rw [hsig]
-      simp only [Bool.false_eq_true, if_false, Bool.false_and]
+      simp only [hb0, Bool.false_eq_true, if_false, Bool.false_and]
       exact toIntegerDigits_spec t h8 b hb false (fun h => by cases h) pre c0 r1 hbytes
 
 /-- `Spec.parse` = white space (optional), then `signOutcome` at that offset -/
